@@ -137,7 +137,8 @@ pub fn install_panic_hook() {
             .map(|l| {
                 let f = l.file();
                 // path relative to the repository / registry root
-                let f = f.strip_prefix("/repo/").unwrap_or(f);
+                let root = std::env::var("VERIF_REPO").unwrap_or_else(|_| "/repo".into());
+                let f = f.strip_prefix(root.as_str()).map(|f| f.trim_start_matches('/')).unwrap_or(f);
                 format!("{}:{}", f, l.line())
             })
             .unwrap_or_else(|| "?".into());
